@@ -882,6 +882,8 @@ fn c04(ix: &Ix, f: &mut Findings) {
                 (S::Idle, HE::HEnter(u)) => S::InHandler(u),
                 (S::InHandler(u), HE::HExit(v)) if u == v => S::Idle,
                 (S::InHandler(u), HE::HPanic(v)) if u == v => S::Dead,
+                // raised by the message's on_tell_result, right after the handler returned
+                (S::Idle, HE::HPanic(_)) => S::Dead,
                 (S::InHandler(_), HE::CallPanic) => S::Dead,
                 (S::Idle, HE::RunPoll(i)) => S::InRun(i),
                 (S::InRun(i), HE::RunPoll(j)) if i == j => S::InRun(i),
